@@ -61,6 +61,9 @@ type PContext struct {
 	originIfaceValue *hack.Iface
 	// proxyFunc 代理函数, 需要内存持续持有
 	proxyFunc reflect.Value
+	// retained 所有被桩代码引用的回调函数、MakeFunc 对象;
+	// 桩代码中的地址对 GC 不可见, 需要在接口变量持有 mock 期间持续持有, 防止被回收
+	retained []interface{}
 	// canceled 是否已经被取消
 	canceled bool
 }
@@ -115,6 +118,7 @@ func GenCallableMethod(ctx *IContext, apply interface{}, proxy PFunc) uintptr {
 		applyValue := reflect.ValueOf(apply)
 		mockFuncPtr := (*hack.Value)(unsafe.Pointer(&applyValue)).Ptr
 		methodCaller, err = MakeMethodCaller(mockFuncPtr)
+		ctx.p.retained = append(ctx.p.retained, apply)
 	} else {
 		// 生成桩代码,rdx 寄存器还原, 生成的调用将跳转到 proxy 函数
 		methodTyp := reflect.TypeOf(apply)
@@ -126,6 +130,7 @@ func GenCallableMethod(ctx *IContext, apply interface{}, proxy PFunc) uintptr {
 		mockFuncPtr := (*hack.Value)(unsafe.Pointer(&mockFunc)).Ptr
 		methodCaller, err = MakeMethodCallerWithCtx(mockFuncPtr, callStub)
 		ctx.p.proxyFunc = mockFunc
+		ctx.p.retained = append(ctx.p.retained, mockFunc)
 	}
 
 	if err != nil {
